@@ -63,14 +63,21 @@ def collect(recs, perm=None):
     return out
 
 
-def events(model_id, variant, obs, delta=1e-8):
-    """Quantum: 1e-8 (relative to the observable's scale) for spectrum, weights and static averages; 1e-6 for G, chi and the
-    susceptibility, whose Lehmann terms with residues below 1e-8 the library is documented to drop -- which terms fall below that
-    threshold depends on the eigenvector basis inside degenerate levels and hence on the partition."""
+# quantum per observable family, fixed in advance (it must not depend on the observed data, or two observations of the same quantity
+# could be quantised differently): 1e-8 x scale for spectrum, weights and static averages; 1e-6 x scale for G, chi and the
+# susceptibility, whose Lehmann terms with residues below 1e-8 the library is documented to drop -- which terms fall below that
+# threshold depends on the eigenvector basis inside degenerate levels and hence on the partition.
+QUANTA = {"spectrum": 1e-6, "ground": 1e-6, "avgE": 1e-6, "weights": 1e-8, "occ": 1e-7, "occ_i": 1e-8, "avg": 1e-8, "docc": 1e-8,
+          "gf": 1e-6, "sus": 1e-6, "chi": 1e-5}
+
+
+def events(model_id, variant, obs):
     ev = []
     for name in sorted(obs):
         vals = obs[name]
-        delta = 1e-6 if name.split("|")[0] in ("gf", "chi", "sus") else 1e-8
-        scale = 10.0 ** max(0, math.ceil(math.log10(max([abs(v) for v in vals] + [1.0]))))
-        ev.append({"e": "Obs", "key": "%s|%s" % (model_id, name), "var": variant, "vals": [int(math.floor(v / (delta * scale))) for v in vals]})
+        q = QUANTA[name.split("|")[0]]
+        if any(abs(v) >= 2.0e9 * q for v in vals):      # would not fit TLC's 32-bit integers: skipped, visibly
+            ev.append({"e": "Obs", "key": "%s|%s|UNQUANTISABLE" % (model_id, name), "var": variant, "vals": [0]})
+            continue
+        ev.append({"e": "Obs", "key": "%s|%s" % (model_id, name), "var": variant, "vals": [int(math.floor(v / q)) for v in vals]})
     return ev
